@@ -183,7 +183,7 @@ def gen_long(tape):
 
 
 def gen_string(tape):
-    mix = tape.pick(["uniform", "string", "name", "number", "delim", "raw"], "mix")
+    mix = tape.pick(["uniform", "string", "name", "number", "delim", "raw", "words"], "mix")
     n = 1 + tape.draw(64 if not tape.coin(70, 100, "short") else 12, "len")
     if mix == "raw":
         return tape.bytes(n, "raw")
@@ -192,6 +192,8 @@ def gen_string(tape):
         "string": [b"(", b")", b"\\", b"\r", b"\n", b"7", b"0", b"9", b"a", b"n", b" ", b"(", b"\\"],
         "name": [b"/", b"#", b"a", b"F", b"0", b"9", b"z", b" ", b"\x00", b"[", b"#", b"/", b"%", b"\n"],
         "number": [b"0", b"9", b"+", b"-", b".", b" ", b"e", b"7", b"/", b"\r"],
+        # the words of the language, whole and in pieces (a keyword with a value of its own is that value wherever a refill falls)
+        "words": [b"true", b"false", b"null", b"false", b"fals", b"e", b"tru", b"ue", b"nul", b"l", b"R", b"obj", b"endobj", b"stream", b" ", b" ", b"\n", b"/", b"[", b"]", b"(", b")", b"<<", b">>", b"1", b"%", b"."],
         "delim": [b"<", b">", b"[", b"]", b"{", b"}", b"<", b">", b"a", b"F", b"0", b" ", b"%", b"\n", b"(", b")"],
     }[mix]
     return b"".join(tape.pick(pools, "b") for _ in range(n))
